@@ -20,6 +20,7 @@ const U32F: f64 = 5.960_464_477_539_063e-8;
 thread_local! {
     static EVALS: Cell<u64> = const { Cell::new(0) };
     static PRIMING: Cell<u64> = const { Cell::new(0) };
+    static CONST_OPERAND: Cell<u64> = const { Cell::new(0) };
 }
 fn ev(n: u64) {
     EVALS.with(|c| c.set(c.get() + n));
@@ -85,8 +86,16 @@ fn check_linearity_f64(rep: &mut Report, d: usize, seed: u64, scale: f64) -> boo
     let case = format!("kind=linear_f64;d={};seed={};scale={:e}", d, seed, scale);
     let mut rng = Rng::derive(seed, &[18, 2, d as u64]);
     let n = 2 * d + 3 + rng.usize_below(2 * d + 2);
-    let x: Vec<f64> = (0..n).map(|_| rng.f64_in(-1.0, 1.0) * scale).collect();
-    let y: Vec<f64> = (0..n).map(|_| rng.f64_in(-1.0, 1.0) * scale).collect();
+    // operand shapes by seed: both random; X a non-zero constant (a DC offset under a signal); Y a
+    // constant from some frame on; both piecewise constant - superposition must hold whatever the
+    // operands look like, also when one of them fills the whole buffer with one value
+    let shape = seed % 4;
+    let (cx, cy) = (rng.f64_in(0.25, 1.0) * scale, -rng.f64_in(0.25, 1.0) * scale);
+    let x: Vec<f64> = (0..n).map(|i| if shape == 1 || (shape == 3 && i >= n / 3) { cx } else { rng.f64_in(-1.0, 1.0) * scale }).collect();
+    let y: Vec<f64> = (0..n).map(|i| if (shape == 2 && i >= 2) || (shape == 3 && i < n / 2) { cy } else { rng.f64_in(-1.0, 1.0) * scale }).collect();
+    if shape != 0 {
+        CONST_OPERAND.with(|c| c.set(c.get() + 1));
+    }
     let (a, b) = (rng.f64_in(-2.0, 2.0), rng.f64_in(-2.0, 2.0));
     let z: Vec<f64> = x.iter().zip(&y).map(|(p, q)| a * p + b * q).collect();
     let xs = hostile_xs(&mut rng, 5);
@@ -302,6 +311,7 @@ fn main() {
         checks::finish(&cli, rep, t0);
     }
     rep.oblige("priming_phase_evaluations", 1);
+    rep.oblige("superposition_with_a_constant_operand", 1);
     let mut depths: Vec<usize> = (1..=cli.t(64, 160)).collect();
     if cli.thorough() {
         depths.extend([128, 256, 1000]);
@@ -315,7 +325,9 @@ fn main() {
             let seed = cli.seed.wrapping_mul(977).wrapping_add(s);
             check_ratio_one(rep, d, 3 * d + 40, seed);
             if d <= 128 {
-                check_linearity_f64(rep, d, seed, 1.0);
+                for v in 0..4u64 {
+                    check_linearity_f64(rep, d, seed.wrapping_mul(4).wrapping_add(v), 1.0); // all four operand shapes
+                }
                 check_linearity_f64(rep, d, seed, 1e300);
                 check_linearity_f64(rep, d, seed, 1e-200);
                 // all six (history length class, ring content class) combinations
@@ -335,6 +347,7 @@ fn main() {
         }
         rep.eval(EVALS.with(|c| c.replace(0)));
         rep.hit_n("priming_phase_evaluations", PRIMING.with(|c| c.replace(0)));
+        rep.hit_n("superposition_with_a_constant_operand", CONST_OPERAND.with(|c| c.replace(0)));
     });
     for r in reps {
         rep.merge(r);
